@@ -8,9 +8,12 @@ From GoCar Require Import Bytes Varint Cid Header Frame V2Header Scan Index.
    SrcSeek  - r is an io.ReadSeeker (bytes.Reader, os.File, io.SectionReader, offsetReadSeeker):
               reader is r itself or a thin wrapper sharing r's position; Seek is a real seek
               (backwards allowed, beyond EOF allowed, int64 overflow is an error).
-   SrcPlain - r is only an io.Reader: reader is a discardingReadSeekerPlusByte with ITS OWN offset
-              counter starting at 0; Seek discards forward (io.CopyN: running dry is io.EOF,
-              a negative count is a silent no-op, a rewind via SeekStart is an error). *)
+   SrcPlain - r has no Seek method (a bare io.Reader, and equally bufio.Reader / bytes.Buffer, which
+              do have ReadByte): ToByteReadSeeker tests for ReadSeeker only, so reader is a
+              discardingReadSeekerPlusByte with ITS OWN offset counter starting at 0.  Every byte
+              taken through the wrapper -- Read, and ReadByte, which is io.ReadFull over its own
+              Read -- is counted; Seek discards forward (io.CopyN: running dry is io.EOF, a negative
+              count is a silent no-op, a rewind via SeekStart is an error). *)
 Inductive srckind := SrcSeek | SrcPlain.
 
 Record gopts := mkgopts {
